@@ -14,6 +14,7 @@ import (
 	"mime"
 	"strconv"
 	"strings"
+	"sync/atomic"
 	"time"
 
 	"github.com/la5nta/wl2k-go/transport"
@@ -457,14 +458,20 @@ func (s *Session) writeCompressed(rw io.ReadWriter, p *Proposal) (err error) {
 
 	buffer := bytes.NewBuffer(p.compressedData[p.offset:])
 
+	// The number of bytes not yet taken from buffer. The status goroutine must not
+	// touch buffer itself (it is being drained by this goroutine).
+	remaining := int64(buffer.Len())
+
 	// Update Status of message transfer every 250ms
 	statusTicker := time.NewTicker(250 * time.Millisecond)
 	statusDone := make(chan struct{})
+	statusExited := make(chan struct{})
 	go func() {
+		defer close(statusExited)
 		for {
 			select {
 			case <-statusTicker.C:
-				if s.statusUpdater == nil || buffer == nil {
+				if s.statusUpdater == nil {
 					continue
 				}
 
@@ -474,7 +481,7 @@ func (s *Session) writeCompressed(rw io.ReadWriter, p *Proposal) (err error) {
 					txBufLen = b.TxBufferLen()
 				}
 
-				transferred := p.compressedSize - buffer.Len() - txBufLen
+				transferred := p.compressedSize - int(atomic.LoadInt64(&remaining)) - txBufLen
 				if transferred < 0 {
 					transferred = 0
 				}
@@ -490,7 +497,7 @@ func (s *Session) writeCompressed(rw io.ReadWriter, p *Proposal) (err error) {
 				if s.statusUpdater != nil {
 					s.statusUpdater.UpdateStatus(Status{
 						Sending:          p,
-						BytesTransferred: p.compressedSize - buffer.Len(),
+						BytesTransferred: p.compressedSize - int(atomic.LoadInt64(&remaining)),
 						BytesTotal:       p.compressedSize,
 						Done:             true,
 					})
@@ -499,7 +506,7 @@ func (s *Session) writeCompressed(rw io.ReadWriter, p *Proposal) (err error) {
 			}
 		}
 	}()
-	defer func() { close(statusDone) }()
+	defer func() { close(statusDone); <-statusExited }() // Wait for the final (Done) status report
 
 	// Data (in chunks of max 250)
 	for buffer.Len() > 0 {
@@ -519,6 +526,7 @@ func (s *Session) writeCompressed(rw io.ReadWriter, p *Proposal) (err error) {
 			}
 			checksum += int64(c)
 		}
+		atomic.AddInt64(&remaining, -int64(msgLen))
 
 		if err = writer.Flush(); err != nil {
 			return err
@@ -606,14 +614,20 @@ func (s *Session) readCompressed(rw io.ReadWriter, p *Proposal) (err error) {
 		s.log.Println("GZIP_EXPERIMENT:", "Receiving gzip compressed message.")
 	}
 
+	// The number of bytes written to buf. The status goroutine must not touch buf
+	// itself (it is being filled by this goroutine).
+	var received int64
+
 	statusUpdate := make(chan struct{})
+	statusExited := make(chan struct{})
 	go func() {
+		defer close(statusExited)
 		for {
 			_, ok := <-statusUpdate
 			if s.statusUpdater != nil {
 				s.statusUpdater.UpdateStatus(Status{
 					Receiving:        p,
-					BytesTransferred: buf.Len(),
+					BytesTransferred: int(atomic.LoadInt64(&received)),
 					BytesTotal:       p.compressedSize,
 					Done:             !ok,
 				})
@@ -623,7 +637,7 @@ func (s *Session) readCompressed(rw io.ReadWriter, p *Proposal) (err error) {
 			}
 		}
 	}()
-	defer func() { close(statusUpdate) }()
+	defer func() { close(statusUpdate); <-statusExited }() // Wait for the final (Done) status report
 	updateStatus := func() {
 		select {
 		case statusUpdate <- struct{}{}:
@@ -651,6 +665,7 @@ func (s *Session) readCompressed(rw io.ReadWriter, p *Proposal) (err error) {
 					return
 				}
 				buf.WriteByte(c)
+				atomic.AddInt64(&received, 1)
 				ourChecksum = (ourChecksum + int(c)) % 256
 				if i%10 == 0 {
 					updateStatus()
